@@ -45,7 +45,13 @@ def evaluate(case):
         o.ref = ref
     elif o.ref_kind == "expect":
         o.expect = ref
-    o.status, o.result = A.run_command(cmd, o.arrays, case["params"])
+    params = case["params"]
+    if case.get("weights_as") and "Weights" in params:
+        # the same weights handed over as numpy scalars, as a caller of the programming interface may do
+        t = numpy.dtype(case["weights_as"]).type
+        if not (case["weights_as"].startswith("int") and any(w != int(w) for w in params["Weights"])):
+            params = dict(params, Weights=[t(w) for w in params["Weights"]])
+    o.status, o.result = A.run_command(cmd, o.arrays, params)
     return o
 
 
